@@ -17,7 +17,9 @@ def run(tier):
                                   (s0 + 4, dict(nd=2, np=2, copies=2), "directed-fixframes", 0, directed.fix_frames),
                                   (s0 + 5, dict(nd=2, np=1, copies=2), "directed-s2-zeroed", 0, directed.s2_zeroed_bad_chg),
                                   (s0 + 6, dict(nd=2, np=2, copies=2), "directed-import-past", 0, directed.import_past_content),
-                                  (s0 + 7, dict(nd=2, np=1, copies=2), "directed-rep-corruption", 0, directed.rep_block_corruption)],
+                                  (s0 + 7, dict(nd=2, np=1, copies=2), "directed-rep-corruption", 0, directed.rep_block_corruption),
+                                  (s0 + 8, dict(nd=3, np=2, copies=2), "directed-rehash-silent-sync", 0, directed.rehash_silent_sync),
+                                  (s0 + 9, dict(nd=3, np=2, copies=2), "directed-zero-chg-second-disk", 0, directed.zero_chg_second_disk)],
         scripts=[("F1s", "NoF1", "F1-chg-pasthash-is-new-hash"), ("F2", "NoF2", "F2-chg-pasthash-other-length")],
         rule="a trace is one seeded history on a real array (edits, complete/killed/partially skipped syncs, damage beyond "
              "and within the parity count, fix, check, scrub), validated step by step by TLC against ArrayTrace.tla; "
